@@ -1174,7 +1174,7 @@ Lemma yield_reactivated e e' i th :
   nth_error (e_threads e) i = Some th -> is_yield th = true ->
   e_active e' <> Some i ->
   nth_error (e_threads e') i = Some (set_runnable th) /\
-  t_state (set_runnable th) = Runnable false.
+  t_state (set_runnable th) = Runnable.
 Proof.
   intros H Hth Hy Hne. split; [|reflexivity].
   destruct (schedule_ok_inv _ _ H) as (curr & cur_th & p1 & p2 & next & _ & Hnext & _ & Hn).
